@@ -414,7 +414,10 @@ func (m *Module) Configure(w *engine.World, r *engine.Rand) any {
 	if r.Bool(0.4) {
 		c.PHarsh = 0.3 * r.Float()
 	}
-	c.Donations = r.Bool(0.5)
+	// off, see DESIGN.md section 14 ("application wiring"): module addresses are blocked as
+	// recipients in a production application
+	_ = r.Bool(0.5)
+	c.Donations = false
 	// Never on: a plain transfer to a module address that the module has not used yet leaves
 	// an ordinary account there and every later module-account operation aborts. That is a
 	// property of the application wiring (which addresses the bank blocks), which the
